@@ -1,5 +1,45 @@
-import Driver.Proto
-/-! C16 handler (not implemented yet). -/
+import Driver.Gql
+import ThunderModel.Gql.Errors
+/-! C16 handler: executor / reference on failing data, the admissible errors, sanitisation. -/
+open Lean TM TM.Gql Driver.Gql
+
 namespace Driver.C16
-def handle : Handler := fun _ => throw "C16: no model yet"
+
+def encErr (e : Err) : Json :=
+  Json.mkObj [("code", (e.code : Json)), ("safe", e.safe), ("path", jList encPE e.path)]
+
+partial def decGoErr (j : Json) : Except String GoErr := do
+  let k ← str j "k"
+  match k with
+  | "plain" => pure (.plain (← nat j "t"))
+  | "safe" => pure (.safe (← nat j "t"))
+  | "panic" => pure (.panicked (← nat j "t"))
+  | "wrapSafe" => pure (.wrapSafe (← decGoErr (← field j "inner")) (← nat j "t"))
+  | "wrapf" => pure (.wrapf (← decGoErr (← field j "inner")) (← nat j "t"))
+  | "path" => pure (.path (← decGoErr (← field j "inner")) (← nats (← field j "p")))
+  | _ => throw s!"bad GoErr kind {k}"
+
+def encMsg : Msg → Json
+  | .generic => Json.mkObj [("generic", true)]
+  | .text t => Json.mkObj [("text", (t : Json))]
+
+def handle : Handler := fun req => do
+  let op ← str req "op"
+  match op with
+  | "exec" =>
+    let σ ← decSchema (← field req "schema")
+    let root ← nat req "root"
+    let data ← decVal (← field req "data")
+    let q ← decSelSet (← field req "query")
+    let fuel ← nat req "fuel"
+    let errs := referenceErrs σ fuel root data q
+    pure <| Json.mkObj [("exec", encRes (execute σ fuel root data q)), ("ref", encRes (reference σ fuel root data q)),
+      ("errs", Json.arr (errs.map fun (e, b) => Json.mkObj [("err", encErr e), ("batch", b)]).toArray)]
+  | "sanitize" =>
+    let e ← decGoErr (← field req "err")
+    let keys ← nats (← field req "keys")
+    let nested := keys.foldl (fun acc k => nest k acc) e
+    pure <| Json.mkObj [("msg", encMsg (sanitize nested)), ("sanitized", nested.isSanitized)]
+  | _ => throw s!"C16: unknown op {op}"
+
 end Driver.C16
